@@ -20,7 +20,7 @@ var ghostBuiltins = map[string]bool{
 	"implies": true, "iff": true, "forall": true, "exists": true, "old": true, "has": true,
 	"lo": true, "hi": true, "at": true, "held": true, "typeIs": true, "gint": true, "allocated": true,
 	"sameArray": true, "refOf": true, "nonNil": true, "dynRef": true, "before": true,
-	"glen": true, "gentry": true, "gfield": true, "gfieldS": true, "mulGE": true, "ptrAt": true, "sliceRef": true, "elemAt": true,
+	"glen": true, "gentry": true, "gfield": true, "gfieldS": true, "mulGE": true, "ptrAt": true, "sliceRef": true, "elemAt": true, "smHas": true, "smIs": true, "smGet": true, "gclock": true, "chanRef": true, "timeNanos": true,
 }
 
 func (x *Exec) isGhostBuiltin(fn *ssa.Function) bool {
@@ -60,6 +60,20 @@ func (x *Exec) callCommon(f *frame, c *ssa.CallCommon, args []*Val, st *State, p
 		if m := models[key]; m != nil {
 			x.usedModels[key] = true
 			return m(x, st, all, sig, pos)
+		}
+		// exactly one type of the package implements the interface: call it, under the obligation
+		// that the dynamic type is that type
+		if impl := x.P.uniqueImpl(c.Value.Type()); impl != nil {
+			if m := x.P.prog.LookupMethod(impl, c.Method.Pkg(), c.Method.Name()); m != nil {
+				x.oblige(st, "tassert", "", "dynamic type of "+types.TypeString(c.Value.Type(), types.RelativeTo(x.P.tpkg))+" is "+types.TypeString(impl, types.RelativeTo(x.P.tpkg)), eq(recv.E[0].S, x.tagOf(impl)), pos)
+				var rv *Val
+				if pt, ok := impl.Underlying().(*types.Pointer); ok {
+					rv = &Val{K: KPtr, T: impl, P: &Ptr{Kind: PHeap, Ref: recv.E[1].S, Root: pt.Elem()}}
+				} else {
+					rv = x.load(st, &Ptr{Kind: PHeap, Ref: recv.E[1].S, Root: impl})
+				}
+				return x.callStatic(m, append([]*Val{rv}, args...), nil, st, pos)
+			}
 		}
 		return x.unknownCall(key, all, st, sig, pos)
 	}
@@ -409,6 +423,35 @@ func (x *Exec) ghost(name string, fn *ssa.Function, args []*Val, st *State, pos 
 		x.sc.bridge[-1] = true // natmul
 		bc := "(natmul " + n(args[2]) + " " + n(args[3]) + ")"
 		return scalar(boolT, "(>= (* "+n(args[0])+" "+n(args[1])+") (* "+bc+" "+n(args[4])+"))", "Bool")
+	case "smHas", "smIs", "smGet":
+		k, str := x.smKey(args[1])
+		c := x.smComps(st, args[0], str)
+		m := args[0].P.Ref
+		has := sel(sel(x.use(c.pres), m), k)
+		switch name {
+		case "smHas":
+			return scalar(boolT, has, "Bool")
+		case "smIs":
+			targs := fn.TypeArgs()
+			return scalar(boolT, eq(sel(sel(x.use(c.tag), m), k), x.tagOf(targs[len(targs)-1])), "Bool")
+		default:
+			targs := fn.TypeArgs()
+			t := targs[len(targs)-1]
+			ref := sel(sel(x.use(c.ref), m), k)
+			if pt, ok := t.Underlying().(*types.Pointer); ok {
+				return &Val{K: KPtr, T: t, P: &Ptr{Kind: PHeap, Ref: ref, Root: pt.Elem()}}
+			}
+			return x.load(st, &Ptr{Kind: PHeap, Ref: ref, Root: t})
+		}
+	case "timeNanos":
+		return scalar(types.Typ[types.Int64], args[0].S, bvSort(64))
+	case "chanRef":
+		return scalar(types.Typ[types.Int], x.intAsGo(args[0].S), I)
+	case "gclock":
+		key := "G|clock"
+		ci := compInfo{sort: bvSort(64)}
+		x.keyInfo[key] = ci
+		return scalar(types.Typ[types.Int64], x.use(x.heapSym(st, key, ci)), bvSort(64))
 	case "sliceRef":
 		return scalar(types.Typ[types.Int], x.intAsGo(args[0].E[0].S), I)
 	case "elemAt":
@@ -428,9 +471,14 @@ func (x *Exec) ghost(name string, fn *ssa.Function, args []*Val, st *State, pos 
 		}
 		return &Val{K: KPtr, T: types.NewPointer(targs[0]), P: &Ptr{Kind: PHeap, Ref: ref, Root: targs[0]}}
 	case "allocated":
-		// the object existed when the function under verification was entered
+		// the object existed when the function under contract was entered (at a call site: when the
+		// call was made)
 		p := args[0]
-		return scalar(boolT, "(<= "+x.refTerm(st, p)+" "+x.top0+")", "Bool")
+		base := x.top0
+		if x.allocBase != "" {
+			base = x.allocBase
+		}
+		return scalar(boolT, "(<= "+x.refTerm(st, p)+" "+base+")", "Bool")
 	case "refOf":
 		return scalar(types.Typ[types.Int], x.intAsGo(x.refTerm(st, args[0])), I)
 	case "nonNil":
@@ -509,15 +557,18 @@ func (x *Exec) contractCall(fn *ssa.Function, key string, ctr *Contract, args []
 	topBefore := st.allocTop
 	// effects
 	switch {
-	case ctr.Pure:
+	case ctr.Pure && len(ctr.Fresh) == 0:
+		x.bumpTop(st) // the callee may still allocate (fresh results)
 	case ctr.ModAll:
 		x.havocAll(st)
 	case len(ctr.Modifies) > 0 || ctr.Trusted || fn == nil || len(fn.Blocks) == 0 || ctr.Ext:
+		x.bumpTop(st)
 		for _, m := range ctr.Modifies {
 			x.havocKeys(st, x.modifiesKeys(m))
 		}
-		if len(ctr.Modifies) > 0 {
-			x.bumpTop(st)
+		// components written in fresh objects only are modified as well (framed below)
+		for _, m := range ctr.Fresh {
+			x.havocKeys(st, x.modifiesKeys(m))
 		}
 	default:
 		ws := x.effects(fn)
@@ -553,6 +604,9 @@ func (x *Exec) contractCall(fn *ssa.Function, key string, ctr *Contract, args []
 			resList = res.E
 		}
 	}
+	savedBase := x.allocBase
+	x.allocBase = topBefore
+	defer func() { x.allocBase = savedBase }()
 	for _, cl := range ctr.Ensures {
 		for _, inst1 := range x.logicalInstances(cl) {
 			binders, inst2 := x.bindFreeLogicals(ctr, cl, inst1)
@@ -751,10 +805,37 @@ func (x *Exec) blockingOp(st *State, what string, pos token.Pos) {
 }
 
 func (x *Exec) sendStmt(f *frame, v *ssa.Send, st *State) {
-	x.val(f, v.X)
+	val := x.val(f, v.X)
 	ch := x.val(f, v.Chan)
-	_ = ch
 	x.blockingOp(st, "chan send", v.Pos())
+	x.logSend(st, "true", ch, val)
+}
+
+// logSend: ghost log "send" gets one entry (fields send.chan, send.val) when cond holds.
+func (x *Exec) logSend(st *State, cond string, ch, val *Val) {
+	if x.spec > 0 {
+		return
+	}
+	nk, ek := x.logKeys("send")
+	n := x.use(x.heapSym(st, nk, x.keyInfo[nk]))
+	e := x.use(x.heapSym(st, ek, x.keyInfo[ek]))
+	x.sc.assume("(>= " + n + " 0)")
+	id := x.alloc(st)
+	x.setHeap(st, ek, x.keyInfo[ek], ite(cond, sto(e, n, id), e))
+	x.setHeap(st, nk, x.keyInfo[nk], ite(cond, "(+ "+n+" 1)", n))
+	for _, fn := range []string{"gf_send_chan", "gf_send_val"} {
+		if !x.sc.decl[fn] {
+			x.sc.decl[fn] = true
+			x.sc.ufDecls = append(x.sc.ufDecls, fmt.Sprintf("(declare-fun %s (Int) %s)", fn, bvSort(64)))
+		}
+	}
+	x.sc.bridge[64] = true
+	cb := "(bvof64 " + ch.S + ")"
+	x.sc.assume(implies(cond, eq("(gf_send_chan "+id+")", cb)))
+	x.sc.assume(implies(and("(<= 0 "+ch.S+")", "(< "+ch.S+" 4611686018427387904)"), eq("(nat64 "+cb+")", ch.S)))
+	if val.K == KScalar && strings.HasPrefix(val.Srt, "(_ BitVec") {
+		x.sc.assume(implies(cond, eq("(gf_send_val "+id+")", x.convNum(val.S, val.Srt, bvSort(64), false, false))))
+	}
 }
 
 func (x *Exec) selectStmt(f *frame, v *ssa.Select, st *State) *Val {
@@ -768,6 +849,11 @@ func (x *Exec) selectStmt(f *frame, v *ssa.Select, st *State) *Val {
 		x.blockingOp(st, "select", v.Pos())
 	}
 	x.sc.assume(and(x.sc.iLe(lo, r.E[0].S), x.sc.iLt(r.E[0].S, x.sc.iConst(int64(n)))))
+	for i, ss := range v.States {
+		if ss.Dir == types.SendOnly {
+			x.logSend(st, eq(r.E[0].S, x.sc.iConst(int64(i))), x.val(f, ss.Chan), x.val(f, ss.Send))
+		}
+	}
 	return r
 }
 
